@@ -154,9 +154,9 @@ PROPS = {
     },
     'C16': {
         'level': 'proof',
-        'technique': 'Verus contracts on cfg_layer/cfg_layer_opt/cfg_layer_bool_flag and on Builder::build against the strategy\'s own precondition cfg_ok',
-        'level_text': 'The three layering functions return the CLI value if given, else the file value, else the default, for every type and value. Builder::build returns Ok only for configurations satisfying cfg_ok - textually the precondition under which unit core_strategy proves that probe_data never reaches unimplemented!() and unit core_state proves ttl-1 indexing safe - accepts every such configuration, and reports everything else as Error::BadConfig.',
-        'level_note': 'NOT covered (not applicable within C16): that each of the ~90 options in TrippyConfig::build_config is wired to the right (args.X, file.X, DEFAULT_X) triple - clap/serde generated types, anyhow, strings. Trusted: Tracer::new -> TracerInner -> make_strategy_config copy the builder fields unchanged (field-by-field copies, not under contract).',
+        'technique': 'Verus contracts on cfg_layer*/validate_* (TUI), Builder::build against the strategy\'s own precondition cfg_ok, the Tracer constructor chain, Channel::connect / send_probe / dispatch_tcp_probe',
+        'level_text': 'The three layering functions return the CLI value if given, else the file value, else the default, for every type and value. Builder::build returns Ok only for configurations satisfying cfg_ok - textually the precondition under which unit core_strategy proves that probe_data never reaches unimplemented!() and unit core_state proves ttl-1 indexing safe - accepts every such configuration, and reports everything else as Error::BadConfig; a given source address must be of the target\'s address family (the precondition under which Channel::connect\'s unreachable!() is unreachable, unit core_net_build). The constructor chain Tracer::new -> TracerInner::new and make_strategy_config / make_channel_config copy every option unchanged; Channel::connect hands them unchanged to the Ipv4 / Ipv6 packet builders and creates a send socket exactly for ICMP and UDP; the command-line range checks (ttl, max-inflight, packet size, source port) accept exactly what the core can run; Channel::send_probe cannot panic whatever was sent before (the table of pending TCP connections is bounded).',
+        'level_note': 'NOT covered (not applicable within C16): that each of the ~90 options in TrippyConfig::build_config is wired to the right (args.X, file.X, DEFAULT_X) triple - clap/serde generated types, anyhow, strings. Trusted: the ArrayVec model (push panics when full, from the crate documentation), platform::startup / Ipv4ByteOrder::for_address declarations, SourceAddr::discover (returns an address of the target\'s family: socket calls, not verified), Tracer::run_internal (RwLock / closures) which connects these verified pieces.',
         'units': ['tui_layer', 'core_builder', 'core_strategy', 'core_net_build'],
         'assumptions': [],
         'not_applicable_parts': ['option wiring in TrippyConfig::build_config'],
@@ -186,7 +186,7 @@ PROPS = {
         'technique': 'modular Verus proof of the real packet builders of net/ipv4.rs and net/ipv6.rs against the imported contracts of the packet codec (pkt_views, pkt_checksum); Kani harnesses on the real dispatch functions with a capturing socket',
         'level_text': 'make_ipv4_packet is proved to produce, for every payload and configuration, a header with version 4, IHL 5, the configured TOS, total length 20+payload in network order, the given identification, DF set / offset 0, the probe ttl, the protocol number, source and destination addresses and the payload at octet 20 (RFC 791 positions); make_udp_packet (v4 and v6): ports, length = 8+payload, payload, checksum = RFC 1071 over pseudo header and datagram; make_echo_request_icmp_packet (v4 and v6): type 8/128, code 0, identifier, sequence, pattern payload, checksum; payload-size helpers make the total size equal the configured packet size. All slice bounds of the builders are discharged at their call preconditions. The dispatch functions themselves - dispatch_icmp_probe, dispatch_udp_probe and dispatch_udp_probe_raw of both address families - are proved for EVERY packet size and configuration against RFC 791/768/792/4443 oracles over a ghost log of what is handed to Socket::send_to (datagram bytes, remote address, IPv6 hop limit): out-of-range packet sizes are rejected before anything is sent; otherwise exactly one datagram with the probe ttl / hop limit, identification, ports, the configured payload (classic), the marker + length-encoded sequence (Dublin/IPv6, under the sequence bound proved in unit core_strategy) or the sequence in the checksum field (Paris) is sent to the target.',
         'level_note': 'The codec is used through contracts proved in units pkt_views / pkt_checksum (imported, not re-verified). Trusted in the dispatch proofs: the ghost log of the Socket trait (send_to / set_unicast_hops_v6 declarations checked against the real trait), sock_send_mapped (send_to followed by the ErrorMapper closures: the error mapping is the complete Kani harness k_error_mapper_tables), first_word_be / put_magic / pattern_array / zero_array shims, the bitflags model of Flags. That the Paris datagram still verifies after the checksum/payload swap is the complete Kani harness k4_dispatch_udp_paris (C13); the Kani dispatch harnesses with concrete sizes remain as cross-checks of the Verus proofs through an independent back end. The unprivileged UDP paths (dispatch_udp_probe_non_raw) and dispatch_tcp_probe use sockets created inside the call: their set-up (bind to the probe\'s source port, ttl / tos / hop limit, connect or send to the destination port, exactly the configured payload) is proved against ghost set-up state of the Socket trait (bind / connect through the sock_bind_mapped / sock_connect_mapped shims). Outside: what the operating system does with those sockets (TCP SYN contents, kernel-built IP/UDP headers, the IPv4 header checksum).',
-        'units': ['core_net_build', 'pkt_views', 'pkt_checksum'],
+        'units': ['core_net_build', 'pkt_views', 'pkt_checksum', 'core_builder'],
         'kani': {'quick': ['k4_dispatch_icmp_28'],
                  'thorough': ['k4_dispatch_icmp_28', 'k4_dispatch_icmp_33', 'k4_dispatch_udp_paris']},
         'assumptions': ['Linux target: Ipv4ByteOrder::Host is compiled out'],
@@ -217,7 +217,7 @@ PROPS = {
         'technique': 'Verus contract on send_request over a ghost send log of the abstract Network; step contracts of next_probe / reissue_probe / advance_round; target_ttl evolution in complete_probe',
         'level_text': 'send_request is proved to hand probes to the network exactly when the policy written from the property allows (target not found in this round, ttl <= max_ttl, ttl <= target distance when known, else fewer than max_inflight hops beyond the farthest hop answered in this round, measured from first_ttl-1 when nothing has answered), each with the current ttl (re-issues keep it) and consecutive sequence numbers; next_probe uses ttl then increments it, reissue_probe reuses ttl-1, advance_round restarts at first_ttl.',
         'level_note': 'Trusted: as C03. The order of calls inside Strategy::run (send before publish in every iteration) is read off the verified loop body, not stated as a temporal property.',
-        'units': ['core_strategy'],
+        'units': ['core_strategy', 'core_builder'],
         'assumptions': [],
         'explanation': 'probe scheduling discipline',
     },
@@ -236,7 +236,7 @@ PROPS = {
         'technique': 'Verus contract on update_round / exceeds / publish_trace with the clock as an arbitrary value',
         'level_text': 'For every value the clock can return, update_round publishes and advances the round exactly when duration > max, or target found and duration > min and more than grace since the last response; otherwise the state is unchanged. The published reason is TargetFound iff the target answered in the round. exceeds() is the saturating difference test.',
         'level_note': 'Not applicable within C08: "never held open longer than max + one read timeout" and "next round starts at the instant of publication" are wall-time statements across loop iterations and blocking reads; contracts give only the step fact. Trusted: SystemTime/Duration shims (duration_since(..).unwrap_or_default() = saturating difference; Duration ordering).',
-        'units': ['core_strategy'],
+        'units': ['core_strategy', 'core_builder'],
         'assumptions': [],
         'not_applicable_parts': ['wall-time bounds across loop iterations (max + one read timeout; start of next round)'],
         'explanation': 'round completion policy',
